@@ -318,10 +318,10 @@ func (r *relay) processor(id uint32) Processor {
 }
 
 func (r *relay) updateTableSize(v uint32) {
-	r.decoderMu.Lock()
-	r.decoder.SetMaxDynamicTableSize(v)
-	r.decoderMu.Unlock()
-
+	// Only the encoder follows the peer's SETTINGS_HEADER_TABLE_SIZE. The
+	// decoder's table is resized by the dynamic table size updates the sender
+	// puts at the start of its header blocks once it has seen the setting;
+	// until then the sender may still reference entries of its old table.
 	r.encoderMu.Lock()
 	r.encoder.SetMaxDynamicTableSize(v)
 	r.encoderMu.Unlock()
